@@ -292,7 +292,47 @@ class Interp(ExprMixin):
                 st.loops.append(lp)          # loops executed inside the callee belong to this path too
         if p.status == 'raise':
             raise _Raised(p.exc, p.node)
+        self._propagate_mutation(f, bound, p, st)
         return p.ret
+
+    def _propagate_mutation(self, f, bound, p, st):
+        """The callee updated one of its array arguments in place (`a *= s`, `a[k] = v`, `ufunc(.., out=a)`): the object
+        is the caller's, so every caller name that held it now holds the updated value.  A parameter that the callee
+        also re-binds with a plain assignment is left alone (the update may have hit the new object)."""
+        rebound = set()
+        for node in ast.walk(f.node):
+            if isinstance(node, (ast.Assign, ast.AnnAssign)):
+                for t in (node.targets if isinstance(node, ast.Assign) else [node.target]):
+                    for n in ast.walk(t):
+                        if isinstance(n, ast.Name) and isinstance(n.ctx, ast.Store) and not isinstance(t, ast.Subscript):
+                            rebound.add(n.id)
+            elif isinstance(node, (ast.For, ast.comprehension)):
+                for n in ast.walk(node.target):
+                    if isinstance(n, ast.Name):
+                        rebound.add(n.id)
+        itemwise = set()
+        for node in ast.walk(f.node):
+            if isinstance(node, ast.Subscript) and isinstance(node.ctx, ast.Store) and isinstance(node.value, ast.Name):
+                itemwise.add(node.value.id)
+            if isinstance(node, ast.keyword) and node.arg == 'out' and isinstance(node.value, ast.Name):
+                itemwise.add(node.value.id)
+        procedure = p.ret is None or p.ret == NONE
+        for name, v0 in bound.items():
+            if name in rebound or not isinstance(v0, (Poly, Tup)) or name not in p.state.env:
+                continue
+            if name not in itemwise and not procedure:
+                continue            # `n *= 2; return n` on a number: the caller sees the result through the return value
+            v1 = p.state.env[name]
+            if v1 is v0 or v1 == v0:
+                continue
+            if isinstance(v0, Poly) and v0.const_value() is not None:
+                continue            # numbers are immutable: `x *= 2` on a scalar argument stays in the callee
+            for k, cv in list(st.env.items()):
+                if cv is v0 or (type(cv) is type(v0) and cv == v0):
+                    st.env[k] = v1
+            for k, cv in list(st.heap.items()):
+                if cv is v0 or (type(cv) is type(v0) and cv == v0):
+                    st.heap[k] = v1
 
     def e_Call(self, node, st):
         fn = node.func
@@ -786,6 +826,9 @@ class Interp(ExprMixin):
             self.assign(target, nf.index(P(it), itatom), st, node)
 
     def s_For(self, s, st):
+        des = self._desugar_generator_loop(s, st)
+        if des is not None:
+            return self.exec_block(des, [st])
         it = self.eval(s.iter, st)
         if isinstance(it, Tup) and not s.orelse and ((len(it) <= 6 and self.unroll) or (
                 len(it) <= 4 and all(isinstance(i, Const) or (isinstance(i, Poly) and i.const_value() is not None) for i in it.items))
@@ -808,6 +851,109 @@ class Interp(ExprMixin):
                 states = nxt
             return states + left, done
         return self._loop(s, st, it)
+
+    _gen_counter = [0]
+
+    def _desugar_generator_loop(self, s, st):
+        """`for T in gen(args): BODY` over a private generator function of the package is the generator's own body with
+        every `yield E` replaced by `T = E; BODY` (locals of the generator renamed apart).  Done only when each yield is a
+        statement of its own that ends a loop body or stands at the top level of the generator, so that `continue` in BODY
+        (resume the generator) means what it means at the place the yield stood."""
+        if s.orelse or not isinstance(s.iter, ast.Call) or any(isinstance(a, ast.Starred) for a in s.iter.args) \
+                or any(k.arg is None for k in s.iter.keywords):
+            return None
+        d = dotted(s.iter.func)
+        if d is None or d.split('.')[0] in st.env:
+            return None
+        tgt = self.repo.resolve_name(self.cur.module, d)
+        if not isinstance(tgt, FuncInfo) or tgt.cls is not None or tgt.key in self.stack or tgt.is_cached \
+                or (tgt.key in known_functions() and tgt.key not in self.inline_set):
+            return None
+        fn = tgt.node
+        yields = [n for n in ast.walk(fn) if isinstance(n, (ast.Yield, ast.YieldFrom))]
+        if not yields or any(isinstance(n, ast.YieldFrom) for n in yields) or any(isinstance(n, ast.Return) and n.value is not None
+                                                                                 for n in ast.walk(fn)):
+            return None
+
+        def sites_ok(body, top):
+            for i, stt in enumerate(body):
+                if isinstance(stt, ast.Expr) and isinstance(stt.value, ast.Yield):
+                    if not (top or i == len(body) - 1):
+                        return False
+                    continue
+                if any(isinstance(n, ast.Yield) for n in ast.walk(stt)):
+                    if isinstance(stt, ast.For) and not stt.orelse:
+                        if not sites_ok(stt.body, False):
+                            return False
+                    else:
+                        return False
+            return True
+        body = [b for b in fn.body if not (isinstance(b, ast.Expr) and isinstance(b.value, ast.Constant))]
+        if not sites_ok(body, True):
+            return None
+        consumer_flow = any(isinstance(n, (ast.Break, ast.Return)) for b in s.body for n in ast.walk(b))
+        if consumer_flow:
+            return None
+        # bind the parameters
+        params = tgt.params()
+        if any(k in ('vararg', 'kwarg') for _, _, k in params) or len(s.iter.args) > len(params):
+            return None
+        pre = f'__{tgt.name.strip("_")}_'
+        local = {n for n, _, _ in params} | set(assigned_names(fn.body))
+        for n in ast.walk(fn):
+            if isinstance(n, ast.comprehension):
+                for t in ast.walk(n.target):
+                    if isinstance(t, ast.Name):
+                        local.discard(t.id)
+
+        class Ren(ast.NodeTransformer):
+            def visit_Name(self_, n):
+                if n.id in local:
+                    return ast.copy_location(ast.Name(id=pre + n.id, ctx=n.ctx), n)
+                return n
+        import copy as _copy
+        out = []
+        given = {}
+        for (name, default, kind), a in zip(params, s.iter.args):
+            given[name] = a
+        for k in s.iter.keywords:
+            if k.arg not in {n for n, _, _ in params} or k.arg in given:
+                return None
+            given[k.arg] = k.value
+        for name, default, kind in params:
+            val = given.get(name, default)
+            if val is None:
+                return None
+            out.append(ast.copy_location(ast.Assign(targets=[ast.Name(id=pre + name, ctx=ast.Store())], value=val, lineno=s.lineno), s))
+
+        top_site = [False]
+
+        def rewrite(block, top):
+            res = []
+            for stt in block:
+                if isinstance(stt, ast.Expr) and isinstance(stt.value, ast.Yield):
+                    val = Ren().visit(_copy.deepcopy(stt.value.value)) if stt.value.value is not None else ast.Constant(value=None)
+                    asg = ast.copy_location(ast.Assign(targets=[_copy.deepcopy(s.target)], value=val, lineno=stt.lineno), stt)
+                    if top:
+                        # a yield outside any loop: run BODY once (its `continue` leaves only this run)
+                        once = ast.For(target=ast.Name(id=pre + 'once', ctx=ast.Store()),
+                                       iter=ast.Tuple(elts=[ast.Constant(value=0)], ctx=ast.Load()),
+                                       body=[asg] + list(s.body), orelse=[], lineno=stt.lineno, col_offset=0)
+                        res.append(ast.fix_missing_locations(ast.copy_location(once, stt)))
+                    else:
+                        res.append(ast.fix_missing_locations(asg))
+                        res.extend(s.body)
+                elif isinstance(stt, ast.For) and any(isinstance(n, ast.Yield) for n in ast.walk(stt)):
+                    new = ast.For(target=Ren().visit(_copy.deepcopy(stt.target)), iter=Ren().visit(_copy.deepcopy(stt.iter)),
+                                  body=rewrite(stt.body, False), orelse=[], lineno=stt.lineno, col_offset=stt.col_offset)
+                    res.append(ast.fix_missing_locations(ast.copy_location(new, stt)))
+                else:
+                    res.append(ast.fix_missing_locations(Ren().visit(_copy.deepcopy(stt))))
+            return res
+        out.extend(rewrite(body, True))
+        for o in out:
+            ast.fix_missing_locations(o)
+        return out
 
     def s_While(self, s, st):
         return self._loop(s, st, None)
